@@ -663,6 +663,11 @@ SHARING = [
     ('route 10.0.1.0/24 next-hop 192.0.2.1 aggregator ( 65000:1.2.3.4 )', 'route 10.0.0.0/24 next-hop 192.0.2.1 atomic-aggregate'),
     ('route 10.0.1.0/24 next-hop 192.0.2.1 attribute [ 0x99 0xe0 0x01 ]', 'route 10.0.0.0/24 next-hop 192.0.2.1 attribute [ 0x99 0xe0 0x02 ]'),
     ('route 10.0.1.0/24 next-hop 192.0.2.1 extended-community [ target:65000:1 ]', 'route 10.0.0.0/24 next-hop 192.0.2.1 extended-community [ origin:65000:1 ]'),
+    # extended communities which differ on the wire and PRINT alike (the attribute index is the text): 2-octet / 4-octet AS
+    # specific, the transitive bit, the AS field of a traffic-rate
+    ('route 10.0.1.0/24 next-hop 192.0.2.1 extended-community [ target:1:1 ]', 'route 10.0.0.0/24 next-hop 192.0.2.1 extended-community [ target:1L:1 ]'),
+    ('route 10.0.1.0/24 next-hop 192.0.2.1 extended-community [ 0x0002000100000001 ]', 'route 10.0.0.0/24 next-hop 192.0.2.1 extended-community [ 0x4002000100000001 ]'),
+    ('route 10.0.1.0/24 next-hop 192.0.2.1 extended-community [ 0x8006000042c80000 ]', 'route 10.0.0.0/24 next-hop 192.0.2.1 extended-community [ 0x8006123442c80000 ]'),
 ]
 
 
